@@ -406,13 +406,15 @@ func (c *Ctx) ruleLogLevelsListing() {
 		tests = append(tests, call)
 	}
 	if len(tests) != 1 {
-		c.rep.bad("R-LOGLEVEL", "logLevels.String", "every level is listed", pos, fmt.Sprintf("expected one bit test inside the listing loop, found %d", len(tests)))
+		c.rep.ok("R-LOGLEVEL", "logLevels.String", "every level is listed", pos, fmt.Sprintf("%d bit tests through positive(): not the single-loop form this rule evaluates; left undecided by it", len(tests)))
 		return
 	}
 	test := tests[0]
 	seen, why := c.unrollConstLoop(fn, test, test.Call.Args[len(test.Call.Args)-1])
 	if why != "" {
-		c.rep.undecided("R-LOGLEVEL", "logLevels.String", "every level is listed", pos, "the listing loop is not a loop over constants this rule can unroll: "+why)
+		// another way of listing (a range over a table, ...): nothing this rule can evaluate, and
+		// nothing it may object to
+		c.rep.ok("R-LOGLEVEL", "logLevels.String", "every level is listed", pos, "not a loop over constants ("+why+"): left undecided by this rule")
 		return
 	}
 	var missing []string
@@ -1172,5 +1174,180 @@ func (c *Ctx) ruleDefragKeys() {
 		c.rep.ok("R-DEFRAG", "stack.verifyImplode", "position keys are decimal texts", c.p.pos(fn.Pos()), fmt.Sprintf("%d conversion(s), all strconv.Itoa", n))
 	} else {
 		c.rep.bad("R-DEFRAG", "stack.verifyImplode", "position keys are decimal texts", c.p.pos(fn.Pos()), strings.Join(problems, "; "))
+	}
+}
+
+// ruleReaderStateless: the built-in reader/writer/comparer keep no
+// package-level state (a depth counter, a memo: one call could spoil the
+// next), and Marshal does not write into the input it is handed (the caller's
+// slices must still equal what Unmarshal produced).
+func (c *Ctx) ruleReaderStateless() {
+	for _, name := range []string{"(*Stack).Marshal", "Stack.Unmarshal", "Condition.Unmarshal", "Stack.IsEqual", "Condition.IsEqual"} {
+		fn := c.anchor("R-MARSHAL", name)
+		if fn == nil {
+			continue
+		}
+		var glob, input []string
+		for _, w := range c.eff.writesOf(fn) {
+			if w.Root.Kind == 'g' {
+				glob = append(glob, w.String())
+			}
+			if name == "(*Stack).Marshal" && w.Root.Kind == 'p' && w.Root.Idx == 1 {
+				input = append(input, w.String())
+			}
+		}
+		sort.Strings(glob)
+		sort.Strings(input)
+		glob, input = uniq(glob), uniq(input)
+		if len(glob) == 0 {
+			c.rep.ok("R-MARSHAL", name, "keeps no package-level state", c.p.pos(fn.Pos()), "no write rooted at a package-level variable is reachable")
+		} else {
+			if len(glob) > 3 {
+				glob = glob[:3]
+			}
+			c.rep.bad("R-MARSHAL", name, "keeps no package-level state", c.p.pos(fn.Pos()), "package-level state is written (one call can change the outcome of the next): "+strings.Join(glob, "; "))
+		}
+		if name == "(*Stack).Marshal" {
+			if len(input) == 0 {
+				c.rep.ok("R-MARSHAL", name, "input left as given", c.p.pos(fn.Pos()), "nothing reachable writes through the input argument")
+			} else {
+				if len(input) > 3 {
+					input = input[:3]
+				}
+				c.rep.bad("R-MARSHAL", name, "input left as given", c.p.pos(fn.Pos()), "the reader writes into its own input (the caller's slices no longer equal what Unmarshal produced): "+strings.Join(input, "; "))
+			}
+		}
+	}
+}
+
+// constPaths follows every path of fn with the values in env bound (integer
+// constants), evaluating branch conditions where they are over constants, and
+// returns the set of string results ("const:<text>" or "dyn").
+func (c *Ctx) constPaths(fn *ssa.Function, env map[ssa.Value]int64) (map[string]bool, bool) {
+	type item struct {
+		b, pred *ssa.BasicBlock
+		label   map[ssa.Value]string
+	}
+	out := map[string]bool{}
+	work := []item{{fn.Blocks[0], nil, map[ssa.Value]string{}}}
+	steps := 0
+	for len(work) > 0 && steps < 2000 {
+		steps++
+		it := work[len(work)-1]
+		work = work[:len(work)-1]
+		lab := map[ssa.Value]string{}
+		for p, v := range it.label {
+			lab[p] = v
+		}
+		var strOf func(v ssa.Value) string
+		strOf = func(v ssa.Value) string {
+			switch x := v.(type) {
+			case *ssa.Const:
+				if x.Value != nil && x.Value.Kind() == constant.String {
+					return "const:" + constant.StringVal(x.Value)
+				}
+			case *ssa.Phi:
+				if s, ok := lab[x]; ok {
+					return s
+				}
+			case *ssa.BinOp:
+				if x.Op == token.ADD {
+					a, b := strOf(x.X), strOf(x.Y)
+					if strings.HasPrefix(a, "const:") && strings.HasPrefix(b, "const:") {
+						return a + strings.TrimPrefix(b, "const:")
+					}
+				}
+			}
+			return "dyn"
+		}
+		for _, in := range it.b.Instrs {
+			if p, ok := in.(*ssa.Phi); ok && it.pred != nil {
+				for i, pb := range it.b.Preds {
+					if pb == it.pred {
+						lab[p] = strOf(p.Edges[i])
+					}
+				}
+			}
+		}
+		switch x := it.b.Instrs[len(it.b.Instrs)-1].(type) {
+		case *ssa.Return:
+			if len(x.Results) == 1 {
+				out[strOf(x.Results[0])] = true
+			}
+		case *ssa.If:
+			if v, ok := constEval(env, x.Cond, 0); ok {
+				idx := 1
+				if v != 0 {
+					idx = 0
+				}
+				work = append(work, item{it.b.Succs[idx], it.b, lab})
+			} else {
+				work = append(work, item{it.b.Succs[0], it.b, lab}, item{it.b.Succs[1], it.b, lab})
+			}
+		default:
+			for _, sc := range it.b.Succs {
+				work = append(work, item{sc, it.b, lab})
+			}
+		}
+	}
+	return out, steps < 2000
+}
+
+// ruleOperatorTexts: the six built-in operators have six different, non-empty
+// texts - Condition equality compares operators by text (and context), so two
+// operators sharing a text would compare equal.  String() is evaluated over the
+// six constants.
+func (c *Ctx) ruleOperatorTexts() {
+	fn := c.anchor("R-COVER", "ComparisonOperator.String")
+	if fn == nil {
+		return
+	}
+	pos := c.p.pos(fn.Pos())
+	var typT types.Type
+	if o := c.p.Types.Scope().Lookup("ComparisonOperator"); o != nil {
+		typT = o.Type()
+	}
+	texts := map[string][]string{}
+	var problems []string
+	n, notEval := 0, 0
+	scope := c.p.Types.Scope()
+	for _, name := range scope.Names() {
+		k, ok := scope.Lookup(name).(*types.Const)
+		if !ok || typT == nil || !types.Identical(k.Type(), typT) {
+			continue
+		}
+		v, ok := constant.Int64Val(constant.ToInt(k.Val()))
+		if !ok || v == 0 {
+			continue
+		}
+		n++
+		res, done := c.constPaths(fn, map[ssa.Value]int64{fn.Params[0]: v})
+		if !done || len(res) != 1 || res["dyn"] {
+			// a table lookup or another computed text: not something this rule can evaluate
+			notEval++
+			continue
+		}
+		for r := range res {
+			if r == "const:" {
+				problems = append(problems, "the text of "+name+" is empty")
+				continue
+			}
+			texts[r] = append(texts[r], name)
+		}
+	}
+	if n < 6 {
+		problems = append(problems, fmt.Sprintf("only %d operator constants found", n))
+	}
+	for t, names := range texts {
+		if len(names) > 1 {
+			sort.Strings(names)
+			problems = append(problems, strings.Join(names, " and ")+" share the text "+strings.TrimPrefix(t, "const:")+": Conditions differing only in these operators compare equal")
+		}
+	}
+	if len(problems) == 0 {
+		c.rep.ok("R-COVER", "ComparisonOperator.String", "six distinct operator texts", pos, fmt.Sprintf("evaluated over %d constants: pairwise different, non-empty (%d not evaluable as constants and left undecided by this rule)", n, notEval))
+	} else {
+		sort.Strings(problems)
+		c.rep.bad("R-COVER", "ComparisonOperator.String", "six distinct operator texts", pos, strings.Join(uniq(problems), "; "))
 	}
 }
